@@ -177,7 +177,9 @@ pub fn tap_tree(p: &mut Prng, n_leaves: usize) -> TapTree {
         tree_depths(p, n_leaves)
     };
     for d in depths {
-        b = b.add_leaf_with_ver(d, gen::script(p, 40), leaf_version(p)).expect("dfs order");
+        // leaf scripts across the one-byte / three-byte length-prefix boundary (252..254 bytes) now and then
+        let max = if p.chance(1, 3) { 300 } else { 40 };
+        b = b.add_leaf_with_ver(d, gen::script(p, max), leaf_version(p)).expect("dfs order");
     }
     TapTree::from_inner(b).expect("complete")
 }
